@@ -77,7 +77,7 @@ fn waker(i: usize) -> Waker {
 // ---------------------------------------------------------------------------------------
 // monitor state
 
-pub const MAX_ACC: usize = 24;
+pub const MAX_ACC: usize = 20;
 pub const MAX_SAMPLES: usize = 14;
 
 pub struct Mon {
@@ -209,6 +209,8 @@ fn consumer_poll(wi: usize) {
 // schedule
 
 pub const MAX_CAP: usize = 4;
+/// longest buffer handed to one write (> every tested chunk size, so partial writes occur)
+pub const MAX_W: usize = 5;
 pub const N_OPS: usize = 4;
 pub const N_SCHED: usize = 6;
 
@@ -256,7 +258,7 @@ fn draw(allow_abort: bool, interleave: bool) -> Sc {
         let kind: u8 = kani::any();
         let len: u8 = kani::any();
         let wk: u8 = kani::any();
-        kani::assume(kind <= 5 && wk <= 1 && (len as usize) <= 2 * MAX_CAP + 1);
+        kani::assume(kind <= 5 && wk <= 1 && (len as usize) <= MAX_W);
         if !allow_abort {
             kani::assume(kind != 3);
         }
@@ -284,7 +286,7 @@ fn record_accept(src: &[u8], n: usize) {
     unsafe {
         let m = &mut MON;
         let mut j = 0;
-        while j < 2 * MAX_CAP + 1 {
+        while j < MAX_W {
             if j < n {
                 if m.acc_n < MAX_ACC {
                     m.acc[m.acc_n] = src[j];
@@ -372,7 +374,8 @@ fn run(cap: usize, sc: &Sc, allow_abort: bool, drop_body_at: Option<usize>) {
                                 HOOK_ON = false;
                             }
                             let mut g = 0;
-                            while g < N_OPS * 3 + 2 {
+                            // at most one chunk per producer operation can be queued
+                            while g < N_OPS + 1 {
                                 let before = unsafe { MON.del_n };
                                 if unsafe { MON.del_n < MON.acc_n && MON.terminal == 0 } {
                                     consumer_poll(0);
@@ -447,7 +450,7 @@ fn run(cap: usize, sc: &Sc, allow_abort: bool, drop_body_at: Option<usize>) {
             }
             // bounded termination: queued chunks + 2 polls
             let mut g = 0;
-            while g < N_OPS * 3 + 3 {
+            while g < N_OPS + 3 {
                 if MON.terminal == 0 {
                     consumer_poll(0);
                     assert!(!MON.parked, "C10: writer is gone but the body is still Pending");
